@@ -8,6 +8,7 @@ import (
 	"encoding/json"
 	"encoding/pem"
 	"fmt"
+	"net"
 	"net/http/httptest"
 )
 
@@ -57,6 +58,9 @@ func (e *Env) NewAccount(prov string, k *Key) (*Acct, error) {
 // NewOrder creates a pending order for one DNS name and returns its ids (order, authz, http-01 challenge, token).
 func (e *Env) NewOrder(a *Acct, name string) (*Issued, error) {
 	pl, _ := json.Marshal(map[string]any{"identifiers": []map[string]string{{"type": "dns", "value": name}}})
+	if e.ServedIP != "" {
+		pl, _ = json.Marshal(map[string]any{"identifiers": []map[string]string{{"type": "ip", "value": e.ServedIP}}})
+	}
 	rec := e.Post(a, Path(a.Prov, "new-order"), pl)
 	if rec.Code != 201 {
 		return nil, fmt.Errorf("new-order: %d %s", rec.Code, rec.Body.String())
@@ -108,8 +112,11 @@ func (e *Env) Issue(a *Acct, name string) (*Issued, error) {
 		return nil, fmt.Errorf("order: %d %s", rec.Code, rec.Body.String())
 	}
 	is.CertKey = NewKey("es256", 0)
-	csr, err := x509.CreateCertificateRequest(rand.Reader, &x509.CertificateRequest{
-		Subject: pkix.Name{CommonName: name}, DNSNames: []string{name}}, is.CertKey.Priv.(*ecdsa.PrivateKey))
+	tmpl := &x509.CertificateRequest{Subject: pkix.Name{CommonName: name}, DNSNames: []string{name}}
+	if e.ServedIP != "" {
+		tmpl = &x509.CertificateRequest{IPAddresses: []net.IP{net.ParseIP(e.ServedIP)}}
+	}
+	csr, err := x509.CreateCertificateRequest(rand.Reader, tmpl, is.CertKey.Priv.(*ecdsa.PrivateKey))
 	if err != nil {
 		return nil, err
 	}
